@@ -792,9 +792,23 @@ func (sa *Application) AllocateAsk(allocKey string) (*resources.Resource, error)
 	sa.Lock()
 	defer sa.Unlock()
 	if ask := sa.requests[allocKey]; ask != nil {
-		return sa.allocateAsk(ask)
+		delta, err := sa.allocateAsk(ask)
+		if err == nil {
+			sa.unReserveAllocatedAsk(allocKey)
+		}
+		return delta, err
 	}
 	return nil, fmt.Errorf("failed to locate ask with key %s", allocKey)
+}
+
+// unReserveAllocatedAsk removes the reservation of an ask that was allocated outside the reservation
+// processing: a placeholder replacement or an allocation placed by the shim. An allocated ask must not
+// keep a node reserved. Must only be called while holding the application lock.
+func (sa *Application) unReserveAllocatedAsk(allocKey string) {
+	if reserve, ok := sa.reservations[allocKey]; ok {
+		num := sa.unReserveInternal(reserve)
+		sa.queue.UnReserve(sa.ApplicationID, num)
+	}
 }
 
 func (sa *Application) DeallocateAsk(allocKey string) (*resources.Resource, error) {
@@ -1301,6 +1315,8 @@ func (sa *Application) tryPlaceholderAllocate(nodeIterator func() NodeIterator, 
 					ph.ClearRelease()
 					continue
 				}
+				// the ask is allocated now: a reservation made before the placeholders showed up must go
+				sa.unReserveAllocatedAsk(request.GetAllocationKey())
 				// bind node here so it will be handled properly upon replacement
 				request.SetBindTime(time.Now())
 				request.SetNodeID(node.NodeID)
@@ -1385,6 +1401,8 @@ func (sa *Application) tryPlaceholderAllocate(nodeIterator func() NodeIterator, 
 				return false
 			}
 
+			// the ask is allocated now: a reservation made before the placeholders showed up must go
+			sa.unReserveAllocatedAsk(reqFit.GetAllocationKey())
 			// bind node here so it will be handled properly upon replacement
 			reqFit.SetBindTime(time.Now())
 			reqFit.SetNodeID(node.NodeID)
